@@ -141,7 +141,9 @@ func (w *world) Setup(e *sim.Env) {
 		return ts != nil && ts.waiter != nil && strings.Contains(point, ".go:")
 	}
 	if l := time.Duration(w.c.Knob("net_latency_ns", 0)); l > 0 {
-		w.m.LagWrite, w.m.LagCas = l+l/4, 3*l+l/2
+		// one one-way trip after the TTL was computed is what no implementation can avoid
+		// (the commands of a pipeline or transaction travel together)
+		w.m.LagWrite, w.m.LagCas = l+l/4, l+l/4
 	}
 	w.m.LaxVersions = w.prop() == "C06"
 	if w.c.Knob("slash_keys", 0) == 1 && w.mode == "seq" {
@@ -295,6 +297,25 @@ func rk(s string) string {
 		return ""
 	}
 	return s
+}
+
+// srvErrOverlap: for how long did the server refuse to work within [a, b]? (a waiter cannot
+// learn anything meanwhile; that time does not count against its promptness)
+func (w *world) srvErrOverlap(a, b time.Time) time.Duration {
+	var d time.Duration
+	for _, iv := range w.srvErr {
+		s, e := iv[0], iv[1]
+		if e.IsZero() || e.After(b) {
+			e = b
+		}
+		if s.Before(a) {
+			s = a
+		}
+		if e.After(s) {
+			d += e.Sub(s)
+		}
+	}
+	return d
 }
 
 // srvErrDuring: did the server refuse to work at some moment of [a, b]?
@@ -744,7 +765,9 @@ func (w *world) doOp(ctx context.Context, ts *taskState, op sim.Op, i int) {
 	}
 	cv.register(&o)
 	e.Logf("%s %s -> %s", ts.name, w.canon(op.String()), w.canon(o.String()))
-	if strings.HasPrefix(o.Err, "other:") && w.srvErrDuring(t0, time.Now()) {
+	if strings.HasPrefix(o.Err, "other:") && (w.srvErrDuring(t0, time.Now()) || (len(w.srvErr) > 0 && strings.Contains(o.Err, "ERR injected"))) {
+		// (a reply of the refusing server may also reach a later call on the same connection:
+		// a pipeline that was cut short leaves its remaining replies behind)
 		// the server refused to work during the call: the storage passes its error on
 		e.Probe("call_failed_by_server_error")
 		return
@@ -1099,7 +1122,7 @@ func (w *world) doWait(ctx context.Context, ts *taskState, op sim.Op, i int, seq
 		e.Probe("wait_cancel_reported_as_transport_error")
 		o.Err = "ctx"
 	}
-	if strings.HasPrefix(o.Err, "other:") && w.srvErrDuring(ws.invAt, t1) {
+	if strings.HasPrefix(o.Err, "other:") && (w.srvErrDuring(ws.invAt, t1) || (len(w.srvErr) > 0 && strings.Contains(o.Err, "ERR injected"))) {
 		// a poll met a server that refused to work: the storage passes its error on
 		e.Probe("wait_failed_by_server_error")
 		return
@@ -1271,7 +1294,7 @@ func (w *world) checkPrompt(idle bool) {
 				e.Violate("C07", "lost_wakeup", "nothing is runnable, yet WaitForVersionChange(%q, %s) of %s is still parked although %s (since %v): lost wake-up; waiter table: %s", ws.key, w.canonVer(ws.ver), ws.task, reason, now.Sub(since), w.waiterTable())
 				return
 			}
-		} else if now.Sub(since) > w.pollBound+8*e.RT.MaxParked {
+		} else if now.Sub(since) > w.pollBound+8*e.RT.MaxParked+w.srvErrOverlap(since, now) {
 			e.Violate("C07", "not_prompt", "WaitForVersionChange(%q, %s) of %s has not returned %v after %s (bound %v = 2.5 x the documented maximal poll interval)", ws.key, w.canonVer(ws.ver), ws.task, now.Sub(since), reason, w.pollBound)
 			return
 		}
